@@ -91,10 +91,27 @@ func runDir(t *Toks) string {
 	anon := t.Bool()
 	users := parseEntries(t)
 	groups := parseEntries(t)
-	qt := &quietT{}
 	logger := hclog.New(&hclog.LoggerOptions{Level: hclog.Off})
-	td := testdirectory.Start(qt, testdirectory.WithNoTLS(qt), testdirectory.WithLogger(qt, logger),
-		testdirectory.WithDefaults(qt, &testdirectory.Defaults{Users: users, Groups: groups, AllowAnonymousBind: anon, UserDN: userDN, GroupDN: groupDN}))
+	var td *testdirectory.Directory
+	var qt *quietT
+	for attempt := 0; attempt < 6; attempt++ {
+		// the directory picks a free port and binds it a moment later: with many runs in
+		// parallel another process can take it in between (Start then reports a failure)
+		qt = &quietT{}
+		td = testdirectory.Start(qt, testdirectory.WithNoTLS(qt), testdirectory.WithLogger(qt, logger),
+			testdirectory.WithDefaults(qt, &testdirectory.Defaults{Users: users, Groups: groups, AllowAnonymousBind: anon, UserDN: userDN, GroupDN: groupDN}))
+		qt.mu.Lock()
+		failed := qt.failed
+		qt.mu.Unlock()
+		if !failed {
+			break
+		}
+		td.Stop()
+		td = nil
+	}
+	if td == nil {
+		return "HARNESS-ERROR the test directory could not be started"
+	}
 	defer td.Stop()
 	conn, err := ldap.DialURL(fmt.Sprintf("ldap://%s:%d", td.Host(), td.Port()))
 	if err != nil {
